@@ -376,7 +376,9 @@ func exec(c proto.Case, o *proto.Out) []string {
 					items = append(items, fmt.Sprintf("%s=%d", key, v))
 				}
 				sort.Strings(items)
-				return strings.Join(append([]string{fmt.Sprintf("n=%d", len(cs))}, items...), " ")
+				// every key's Counter() reads the clock once
+				return strings.Join(append([]string{fmt.Sprintf("n=%d", len(cs))}, items...), " ") +
+					fmt.Sprintf(" reads=%d", clk.Reads())
 			})
 			o.Count("counters")
 		default:
